@@ -240,6 +240,14 @@ def run(ctx):
         ctx.failure(key, replay if replay is not None else replays[idx], what)
 
     corpus = cm.load_corpus(PID)
+    rp = None
+    if getattr(ctx, "replay", None):
+        rp = ctx.replay.get("replay", ctx.replay)
+        if not isinstance(rp, dict):
+            rp = None
+
+    def replay_is(call):
+        return rp is not None and rp.get("call") == call
 
     # ------------------------------------------------------------------ ppos
     def do_ppos(nval, cst):
@@ -252,9 +260,7 @@ def run(ctx):
                 ("ppos", min(nval, 4), cst in (0.0, 0.5), out is None))
         inside = 0.0 <= cst <= 0.5
         if not inside:
-            if out is not None:
-                fail(i, "C20/ppos/constant-outside-range-accepted", f"ppos({nval}, {cst!r}) did not raise")
-            return
+            return      # outside the property's quantifier: the correspondence alone covers the error path
         if out is None:
             fail(i, "C20/ppos/valid-constant-rejected", f"ppos({nval}, {cst!r}) raised")
             return
@@ -277,6 +283,8 @@ def run(ctx):
                 fail(i, "C20/ppos/not-symmetric", f"ppos({nval}, {cst!r}): p[{k}] + p[{nval - 1 - k}] != 1")
                 return
 
+    if replay_is("sutils.ppos"):
+        do_ppos(int(rp["nval"]), float(rp["cst"]))
     CSTS = [0.0, 0.5, 0.3, 0.375, 0.3175, 0.4, 0.25]
     for nval in list(range(0, 8)) + [rng.randint(8, ctx.scale(300, 2000)) for _ in range(ctx.scale(25, 200))]:
         for cst in rng.sample(CSTS, 3) + [rng.uniform(0, 0.5)]:
@@ -318,9 +326,7 @@ def run(ctx):
                 {"call": "sutils.standard_normal", "x": x, "cst": cst, "sorted": srt, "ranks": ranks, "unorm": unorm},
                 ("snorm", min(len(x), 4), nties > 0, nties == len(x) - 1 and len(x) > 1, srt, ranks is None))
         if hasnan:
-            if ranks is not None:
-                fail(i, "C20/standard_normal/nan-accepted", "standard_normal accepted NaN data")
-            return
+            return      # outside the quantifier (NaN-free vectors): correspondence only
         if ranks is None:
             fail(i, "C20/standard_normal/valid-data-rejected", "standard_normal raised on NaN-free data")
             return
@@ -353,6 +359,8 @@ def run(ctx):
                      f"ranks {ranks[a]!r} < {ranks[b]!r} but scores {unorm[a]!r}, {unorm[b]!r}")
                 return
 
+    if replay_is("sutils.standard_normal"):
+        do_snorm([float(v) for v in rp["x"]], float(rp["cst"]), bool(rp["sorted"]))
     for it in range(ctx.scale(70, 700)):
         n = rng.choice([0, 1, 2, 3, 4, rng.randint(0, 30), rng.randint(0, ctx.scale(300, 1500))])
         x = gen_values(rng, n)
@@ -408,9 +416,7 @@ def run(ctx):
                     replay, ("lhs", min(n, 3), npar, cols is None))
         valid = len(pmin) == len(pmax) and all(b > a for a, b in zip(pmin, pmax)) and n >= 1
         if not valid:
-            if cols is not None:
-                fail(i, "C20/lhs/bad-bounds-accepted", f"lhs({n}, {pmin}, {pmax}) did not raise", replay)
-            return
+            return      # outside the quantifier (pmin < pmax, n >= 1): correspondence only
         if cols is None:
             fail(i, "C20/lhs/valid-input-rejected", f"lhs({n}, {pmin}, {pmax}) raised", replay)
             return
@@ -456,6 +462,8 @@ def run(ctx):
                      f"{badk} do not hold exactly one point", replay)
                 return
 
+    if replay_is("sutils.lhs"):
+        do_lhs(int(rp["nsamples"]), [float(v) for v in rp["pmin"]], [float(v) for v in rp["pmax"]])
     for it in range(ctx.scale(60, 600)):
         n = rng.choice([1, 1, 2, 3, rng.randint(1, 30), rng.randint(1, ctx.scale(300, 1200))])
         npar = rng.randint(1, 6)
@@ -515,6 +523,8 @@ def run(ctx):
             fail(i, "C20/pareto_front/orientation-not-negation",
                  f"pareto_front(data, {o}) != pareto_front(-data, {-o})")
 
+    if replay_is("sutils.pareto_front"):
+        do_pareto([[float(v) for v in r] for r in rp["data"]], int(rp["ncol"]), int(rp["orientation"]))
     for it in range(ctx.scale(260, 2600)):
         n = rng.choice([0, 1, 2, 3, rng.randint(0, 12), rng.randint(0, 60)])
         ncol = rng.randint(1, 5)
@@ -619,9 +629,7 @@ def run(ctx):
             i = add(f"CBox {fl(vals)} {cm.coq_float(box)} {cm.coq_float(wh)} {cm.coq_option(st, fstats_term)}",
                     replay, ("box",) + sig_col(vals) + (stats is None,))
             if not valid:
-                if stats is not None:
-                    fail(i, "C20/boxplot/bad-coverage-accepted", f"Boxplot accepted box={box}, whiskers={wh}")
-                continue
+                continue    # outside the quantifier (40 <= box < whiskers): correspondence only
             if stats is None:
                 fail(i, "C20/boxplot/valid-coverage-rejected", f"Boxplot rejected box={box}, whiskers={wh}")
                 continue
@@ -641,6 +649,8 @@ def run(ctx):
         return (a["count"] == b["count"] and all(eq(x, y) for x, y in zip(a["prc"], b["prc"]))
                 and eq(a["max"], b["max"]) and eq(a["min"], b["min"]) and eq(a["mean"], b["mean"], 1e-12 * sc))
 
+    if replay_is("Boxplot(DataFrame).stats") and len(rp["column"]) > 0:
+        do_box({"c0": [float(v) for v in rp["column"]]}, float(rp["box_coverage"]), float(rp["whiskers_coverage"]))
     maxlen = ctx.scale(300, 1200)
     for it in range(ctx.scale(130, 1300)):
         n = max(1, gen_len(rng, maxlen))
@@ -697,9 +707,7 @@ def run(ctx):
                 replay, ("boxby", len(cats), min(len(vals), 5), any(not isfin(v) for v in vals), stats is None))
         valid = len(cats) >= 2 and box >= 40.0 and wh > box
         if not valid:
-            if stats is not None:
-                fail(i, "C20/boxplot-by/bad-arguments-accepted", f"{len(cats)} categories, box={box}, whiskers={wh}")
-            return
+            return      # outside the quantifier (2+ categories, 40 <= box < whiskers): correspondence only
         if stats is None:
             fail(i, "C20/boxplot-by/valid-arguments-rejected", f"{len(cats)} categories, box={box}, whiskers={wh}")
             return
@@ -715,6 +723,9 @@ def run(ctx):
                      f"category {c}: grouped {st} != boxplot_stats(group alone) {alone}", replay)
                 return
 
+    if replay_is("Boxplot(data, by).stats"):
+        do_boxby([int(v) for v in rp["by"]], [float(v) for v in rp["data"]], float(rp["box_coverage"]),
+                 float(rp["whiskers_coverage"]), bool(rp.get("string_labels")))
     for it in range(ctx.scale(70, 700)):
         ncat = rng.choice([2, 2, 3, 4, 5])
         if rng.random() < 0.05:
@@ -859,6 +870,11 @@ def run(ctx):
             if any(not a <= b for a, b in zip(x, x[1:])) or x[0] < lo or x[-1] > hi:
                 fail(j, "C20/violin/abscissae", f"kde_x not sorted within the data range [{min(fin)!r}, {max(fin)!r}]")
 
+    if replay_is("Violin(DataFrame)"):
+        if "columns" in rp:
+            do_violin({k: [float(v) for v in vs] for k, vs in rp["columns"].items()})
+        elif "column" in rp:
+            do_violin({"v0": [float(v) for v in rp["column"]]})
     # corpus: earlier failures, replayed first
     for case in corpus:
         if case.get("call") == "violin":
